@@ -28,7 +28,16 @@ class CustomScalar:
     def coerce_output(self, v):
         if isinstance(v, str) and v == "NULLME": return None
         return self._ok(v)
-    def coerce_input(self, v): return self._ok(v)
+    input_calls = 0           # how often user-level input coercion ran (class-wide: reset by the caller around a request)
+    def coerce_input(self, v):
+        CustomScalar.input_calls += 1
+        v = self._ok(v)
+        # a container is handed on as a value of its own: what a resolver later does to its argument must not reach the
+        # caller's variables object through this pass-through scalar (harness hygiene, found by C15's scribbling resolvers)
+        if isinstance(v, (dict, list)):
+            import copy
+            return copy.deepcopy(v)
+        return v
     def parse_literal(self, ast):
         from tartiflette.constants import UNDEFINED_VALUE
         from tartiflette.language.ast import StringValueNode, IntValueNode, BooleanValueNode
@@ -69,8 +78,19 @@ def make_resolver(built, coord, spec):
                     v["scribble"] = "scribble"
             for v in list(args.values()): deep(v)
             args["scribble"] = "scribble"
+        if kind == "ctxCount":
+            # memoises in the request's context when the caller supplied a dict; a request sent WITHOUT context sees nothing
+            if isinstance(ctx, dict):
+                ctx["n_seen"] = ctx.get("n_seen", 0) + 1
+                return f"seen{ctx['n_seen']}"
+            return "seen0"
         if kind == "const": return dec(spec["v"])
         if kind == "raise": raise dec(spec["v"])
+        if kind == "raiseShared":
+            # ONE exception instance (a module-level constant in application code) raised by every call of this resolver
+            inst = built.__dict__.setdefault("_shared_exc", {})
+            if coord not in inst: inst[coord] = dec(spec["v"])
+            raise inst[coord]
         if kind == "parentKey":
             return parent.get(spec["key"]) if isinstance(parent, dict) else None
         if kind == "argEcho": return res
